@@ -141,7 +141,8 @@ pub fn worker_main() -> i32 {
             None => return 0,
         };
         let mut script = None;
-        if nops != u32::MAX {
+        let json_mode = nops == u32::MAX - 1;
+        if nops != u32::MAX && !json_mode {
             let mut ops = Vec::new();
             for _ in 0..nops {
                 let b = match read_exact_or_none(&mut inp, 5) {
@@ -165,6 +166,7 @@ pub fn worker_main() -> i32 {
         let mut fired = [0u32; 4];
         crate::alloc::reset_max();
         let res = std::panic::catch_unwind(std::panic::AssertUnwindSafe(|| match script {
+            None if json_mode => (entry.decode_json)(&bytes),
             None => (entry.decode)(&bytes),
             Some(ops) => {
                 let mut fr = FaultyRead::new(&bytes, ops);
@@ -230,6 +232,10 @@ pub enum Decoded {
 }
 
 pub fn decode_in_worker(ty: usize, bytes: &[u8], script: Option<&[ReadOp]>) -> Decoded {
+    decode_in_worker_mode(ty, bytes, script, false)
+}
+
+pub fn decode_in_worker_mode(ty: usize, bytes: &[u8], script: Option<&[ReadOp]>, json: bool) -> Decoded {
     WORKER.with(|w| {
         let mut w = w.borrow_mut();
         if w.is_none() {
@@ -241,6 +247,7 @@ pub fn decode_in_worker(ty: usize, bytes: &[u8], script: Option<&[ReadOp]>) -> D
         req.extend_from_slice(&(bytes.len() as u32).to_le_bytes());
         req.extend_from_slice(bytes);
         match script {
+            None if json => req.extend_from_slice(&(u32::MAX - 1).to_le_bytes()),
             None => req.extend_from_slice(&u32::MAX.to_le_bytes()),
             Some(ops) => {
                 req.extend_from_slice(&(ops.len() as u32).to_le_bytes());
@@ -351,6 +358,181 @@ fn read_scripts(sch: &mut Sched, len: usize) -> Vec<Value> {
     v
 }
 
+// ---------------------------------------------------------------- JSON (a second serde format)
+
+/// Token spans of a JSON text: (start, end, kind) with kind 's' string literal (including the
+/// quotes), 'n' number, '[' array open.
+fn json_tokens(b: &[u8]) -> Vec<(usize, usize, u8)> {
+    let mut out = Vec::new();
+    let mut i = 0;
+    while i < b.len() {
+        match b[i] {
+            b'"' => {
+                let st = i;
+                i += 1;
+                while i < b.len() && b[i] != b'"' {
+                    if b[i] == b'\\' {
+                        i += 1;
+                    }
+                    i += 1;
+                }
+                i += 1;
+                out.push((st, i.min(b.len()), b's'));
+            }
+            b'-' | b'0'..=b'9' => {
+                let st = i;
+                while i < b.len() && (b[i] == b'-' || b[i] == b'+' || b[i] == b'.' || b[i] == b'e' || b[i] == b'E' || b[i].is_ascii_digit()) {
+                    i += 1;
+                }
+                out.push((st, i, b'n'));
+            }
+            b'[' => {
+                out.push((i, i + 1, b'['));
+                i += 1;
+            }
+            _ => i += 1,
+        }
+    }
+    out
+}
+
+fn json_mutate(json: &[u8], m: &Value) -> Vec<u8> {
+    let toks = json_tokens(json);
+    let k = m["tok"].as_u64().unwrap_or(0) as usize;
+    let splice = |st: usize, en: usize, with: &[u8]| -> Vec<u8> {
+        let mut v = json[..st].to_vec();
+        v.extend_from_slice(with);
+        v.extend_from_slice(&json[en..]);
+        v
+    };
+    match m["k"].as_str().unwrap_or("") {
+        "none" => json.to_vec(),
+        "number" => {
+            let nums: Vec<&(usize, usize, u8)> = toks.iter().filter(|t| t.2 == b'n').collect();
+            if nums.is_empty() {
+                return json.to_vec();
+            }
+            let t = nums[k % nums.len()];
+            splice(t.0, t.1, m["with"].as_str().unwrap_or("0").as_bytes())
+        }
+        "string" => {
+            let strs: Vec<&(usize, usize, u8)> = toks.iter().filter(|t| t.2 == b's').collect();
+            if strs.is_empty() {
+                // no string in the honest form: put one where a number is
+                let nums: Vec<&(usize, usize, u8)> = toks.iter().filter(|t| t.2 == b'n').collect();
+                if nums.is_empty() {
+                    return json.to_vec();
+                }
+                let t = nums[k % nums.len()];
+                return splice(t.0, t.1, "\"0é\"".as_bytes());
+            }
+            let t = strs[k % strs.len()];
+            let inner = t.1.saturating_sub(t.0 + 2);
+            let hostile: String = match m["with"].as_str().unwrap_or("") {
+                "2byte" => {
+                    // same byte length, a two-byte character straddling every even offset
+                    let mut x = String::from("0");
+                    while x.len() + 2 <= inner {
+                        x.push('é');
+                    }
+                    while x.len() < inner {
+                        x.push('0');
+                    }
+                    x
+                }
+                "3byte" => {
+                    let mut x = String::new();
+                    while x.len() + 3 <= inner {
+                        x.push('€');
+                    }
+                    while x.len() < inner {
+                        x.push('0');
+                    }
+                    x
+                }
+                "4byte" => {
+                    let mut x = String::new();
+                    while x.len() + 4 <= inner {
+                        x.push('😀');
+                    }
+                    while x.len() < inner {
+                        x.push('f');
+                    }
+                    x
+                }
+                "empty" => String::new(),
+                "long" => "ab".repeat(50_000),
+                "hexlike" => "zz".repeat(inner / 2 + 1),
+                _ => "\\u0000".repeat(inner / 6 + 1),
+            };
+            let mut w = vec![b'"'];
+            w.extend_from_slice(hostile.as_bytes());
+            w.push(b'"');
+            splice(t.0, t.1, &w)
+        }
+        "array" => {
+            let arrs: Vec<&(usize, usize, u8)> = toks.iter().filter(|t| t.2 == b'[').collect();
+            if arrs.is_empty() {
+                return json.to_vec();
+            }
+            let t = arrs[k % arrs.len()];
+            let reps = m["n"].as_u64().unwrap_or(1) as usize;
+            let mut ins = Vec::new();
+            for _ in 0..reps {
+                ins.extend_from_slice(b"0,");
+            }
+            splice(t.1, t.1, &ins)
+        }
+        "trunc" => json[..(m["at"].as_u64().unwrap_or(0) as usize).min(json.len())].to_vec(),
+        "nest" => {
+            let n = m["n"].as_u64().unwrap_or(1000) as usize;
+            let mut v = vec![b'['; n];
+            v.extend_from_slice(json);
+            v
+        }
+        "random" => {
+            let mut s = Sched::new(m["r"].as_u64().unwrap_or(0), "c16/json/random");
+            s.bytes(m["len"].as_u64().unwrap_or(8) as usize)
+        }
+        _ => crate::harness_error("bad json mutation"),
+    }
+}
+
+fn json_cases(sch: &mut Sched, base: &Value, big: bool, quick: bool) -> Vec<Value> {
+    let mut v = Vec::new();
+    let mk = |m: Value| {
+        let mut c = base.clone();
+        c["fmt"] = json!("json");
+        c["m"] = m;
+        c["read"] = Value::Null;
+        c
+    };
+    v.push(mk(json!({"k": "none"})));
+    let ntok = if big { 3 } else { 8 };
+    for _ in 0..ntok {
+        let tok = sch.u64() % 4096;
+        for with in ["-1", "256", "4294967296", "18446744073709551616", "1e400", "-0.5", "null", "\"x\"", "[]", "{}"] {
+            if quick && big && sch.chance(2, 3) {
+                continue;
+            }
+            v.push(mk(json!({"k": "number", "tok": tok, "with": with})));
+        }
+        for with in ["2byte", "3byte", "4byte", "empty", "long", "hexlike", "nul"] {
+            v.push(mk(json!({"k": "string", "tok": tok, "with": with})));
+        }
+        for n in [1u64, 2, 100_000] {
+            v.push(mk(json!({"k": "array", "tok": tok, "n": n})));
+        }
+    }
+    for _ in 0..4 {
+        v.push(mk(json!({"k": "trunc", "at": sch.u64() % 5000})));
+        v.push(mk(json!({"k": "random", "len": sch.u64() % 64, "r": sch.u64()})));
+    }
+    v.push(mk(json!({"k": "nest", "n": 200})));
+    v.push(mk(json!({"k": "nest", "n": 100_000})));
+    v
+}
+
 impl Prop for C16 {
     fn id(&self) -> &'static str {
         "C16"
@@ -446,6 +628,9 @@ impl Prop for C16 {
                     };
                     v.push(mk(json!({"k": "random", "len": l, "r": sch.u64()}), Value::Null));
                 }
+                if *c == 1 {
+                    v.extend(json_cases(&mut sch, &base, big, tier == Tier::Quick));
+                }
                 let nflip = if tier == Tier::Quick { 4 } else { 24 };
                 for _ in 0..nflip {
                     v.push(mk(json!({"k": "flip", "at": sch.usize(len.max(1)), "bit": sch.usize(8)}), Value::Null));
@@ -462,6 +647,35 @@ impl Prop for C16 {
         let (s, ty) = sample_by(case);
         let entry = &registry().types[ty];
         let m = &case["m"];
+        if case["fmt"] == "json" {
+            // the honest value in another serde format, mutated as text
+            let honest = match (entry.to_json)(&s.trace.bytes) {
+                Ok(j) => j,
+                Err(_) => {
+                    o.bump("probe.json_form_unavailable");
+                    return o;
+                }
+            };
+            let bytes = json_mutate(&honest, m);
+            o.events = 1;
+            o.bump(&format!("fault.json.{}", m["k"].as_str().unwrap_or("none")));
+            let site = format!("decode-json/{}/{}", s.ty, m["k"].as_str().unwrap_or("none"));
+            let bound = 2 * entry.size_of as u64 + 64 * bytes.len() as u64 + SLACK as u64;
+            match decode_in_worker_mode(ty, &bytes, None, true) {
+                Decoded::Ok { max_alloc, .. } | Decoded::Err { max_alloc, .. } => {
+                    o.bump("probe.json_decode_returned");
+                    if max_alloc > bound {
+                        o.violate("over-allocation", &site, format!("largest single allocation request {} bytes while decoding {} bytes of JSON as {} (bound {})", max_alloc, bytes.len(), s.ty, bound));
+                    }
+                }
+                Decoded::Panic { loc, msg } => o.violate("decode-panic", &loc, format!("decoder panicked while decoding JSON as {} with fault {}: {}", s.ty, m, msg)),
+                Decoded::Died { how } => o.violate("decode-abort", &site, format!("worker process died while decoding JSON ({})", how)),
+            }
+            o.nontrivial = m["k"] != "none";
+            o.shape = mix(&[ty as u64, 0x150, case["sample"].as_u64().unwrap_or(0), case["stream"].as_u64().unwrap_or(0), crate::hash_str(&m.to_string())]);
+            o.log_hash = mix(&[o.shape, o.violations.len() as u64]);
+            return o;
+        }
         let bytes = mutate::apply(&s.trace, m);
         let script = if case["read"].is_null() { None } else { Some(script_from_json(&case["read"])) };
         let mdesc = mutate::describe(m);
@@ -544,16 +758,16 @@ impl Prop for C16 {
         v
     }
     fn rule(&self) -> String {
-        "one case = (harvested honest encoding of one registered Deserialize type or element codec, one wire fault, optional read-fault script). Wire faults: every sequence-length atom -> {0,n-1,n+1,2n,2^16,2^32,2^40,2^60,2^64-1} with and without a well-formed trailing element; enum/option tags out of range; every atom -> each invalid/boundary encoding and random bytes; truncation at every atom boundary and inside atoms; extension; random strings; bit flips. Read faults: short reads, EINTR, EOF, I/O error. Each case is decoded in a supervised worker process under a tracking allocator that refuses requests above 256 MiB. Distinct = distinct (type, sample, fault, script); non-trivial = a fault was injected".into()
+        "one case = (harvested honest encoding of one registered Deserialize type or element codec, one wire fault, optional read-fault script). Wire faults: every sequence-length atom -> {0,n-1,n+1,2n,2^16,2^32,2^40,2^60,2^64-1} with and without a well-formed trailing element; enum/option tags out of range; every atom -> each invalid/boundary encoding and random bytes; truncation at every atom boundary and inside atoms; extension; random strings; bit flips. Read faults: short reads, EINTR, EOF, I/O error. A second format: the same values as JSON text (serde_json), mutated as text (numbers out of range / of other types, hostile strings with multi-byte characters of the same byte length, arrays grown by 1..100000 elements, truncation, deep nesting, random bytes). Each case is decoded in a supervised worker process under a tracking allocator that refuses requests above 256 MiB. Distinct = distinct (type, sample, fault, script); non-trivial = a fault was injected".into()
     }
     fn assumptions(&self) -> Vec<String> {
         vec![
-            "decoders are exercised through bincode (fixint, little-endian) as the crates' own tests do; other serde formats are not covered".into(),
+            "decoders are exercised through bincode (fixint, little-endian) and, as a second human-readable format, serde_json".into(),
             "allocation bound: largest single request <= 2*size_of::<T>() + 64*input_len + 1 MiB".into(),
             "the worker's allocator cap (256 MiB) turns a huge pre-allocation into an abort that is attributed to the case in flight".into(),
         ]
     }
     fn required_probes(&self, _tier: Tier) -> Vec<&'static str> {
-        vec!["probe.decoded_ok", "probe.decode_refused", "fault.read.short", "fault.read.eintr", "fault.read.eof", "fault.read.error", "fault.wire.seqlen", "fault.wire.trunc"]
+        vec!["probe.decoded_ok", "probe.decode_refused", "fault.read.short", "fault.read.eintr", "fault.read.eof", "fault.read.error", "fault.wire.seqlen", "fault.wire.trunc", "fault.json.string", "fault.json.number", "probe.json_decode_returned"]
     }
 }
